@@ -2,3 +2,4 @@
 import Tcell.Model.Cell
 import Tcell.Model.CellOps
 import Tcell.Props.C08
+import Tcell.Props.C10
